@@ -102,7 +102,7 @@ func (l *Lexer) NextToken() token.Token {
 		l.skipWhitespace()
 	}
 
-	if l.char == 0 {
+	if l.isEOF() {
 		l.tokenBegins()
 		return l.newToken(token.EOF, "")
 	}
@@ -464,7 +464,7 @@ func (l *Lexer) readString() (string, bool) {
 
 	pos := l.pos
 
-	for l.char != 0 {
+	for !l.isEOF() {
 		prevChar := l.char
 
 		l.readChar()
@@ -523,7 +523,7 @@ func (l *Lexer) readHTML() string {
 	var out bytes.Buffer
 	l.tokenBegins()
 
-	for l.isHTML && l.char != 0 {
+	for l.isHTML && !l.isEOF() {
 		isDirective, escapedDir := l.isDirectiveToken()
 		areBraces, escapedBraces := l.areBracesToken()
 
@@ -576,6 +576,12 @@ func (l *Lexer) readChar() {
 	}
 
 	l.shouldResetCol = l.char == '\n'
+}
+
+// isEOF reports whether all input has been read. A zero byte
+// in the input is an ordinary character, not the end of it.
+func (l *Lexer) isEOF() bool {
+	return l.pos >= len(l.input)
 }
 
 func (l *Lexer) peekChar() byte {
